@@ -725,7 +725,12 @@ impl Run<'_> {
             4 => {
                 let order = rng.range(0, TREE_ORDER);
                 let len = 1usize << order;
-                let f = (usize::MAX / 2 + rng.below(1 << 20)) / len * len;
+                let f = if rng.chance(1, 2) {
+                    (usize::MAX / 2 + rng.below(1 << 20)) / len * len
+                } else {
+                    // frame + size wraps around
+                    (usize::MAX - rng.below(1 << 12)) / len * len
+                };
                 mk(f, order, class)
             }
             // last frame with too large order
@@ -861,10 +866,11 @@ impl Run<'_> {
 
         // ---- judge ----
         if let Outcome::Panic { msg, loc } = &outcome {
+            // a malformed call must be rejected with an error (C08); a valid one must return (C09)
             self.report(
                 Violation::new(
-                    "C09",
-                    panic_signature(msg, loc),
+                    if valid { "C09" } else { "C08" },
+                    if valid { panic_signature(msg, loc) } else { format!("invalid-argument-{}", panic_signature(msg, loc)) },
                     format!("call #{id} {call:?} panicked: {msg} at {loc}"),
                 ),
                 true,
